@@ -5,8 +5,14 @@
 package dns
 
 // String() never panics, whatever octets the record was unpacked from
-//@ func sprintName [C02 C05]
+// the rewritten form is started by copying the part of the name that needed no change: an octet of the name is
+// never the first thing written to the builder (only a backslash may be, for an escape at the very start)
+//@ func sprintName [C02 C05 C03]
 //@   loop 1 invariant 0 <= i
+//@   callsite "WriteByte" started: arg1 == 92 || ghost(dst, "len") > 0 [C03 C05]
+// a Name prints through sprintName, whatever it holds (special and unprintable octets are escaped there)
+//@ func (Name).String [C03 C05]
+//@   exit through: called("sprintName") && same(ret0, callres("sprintName"))
 //@ func sprintTxtOctet [C02 C05]
 //@   loop 1 invariant 0 <= i
 //@ func sprintTxt [C02 C05]
